@@ -39,7 +39,8 @@ def make(md, rng, mode, n_atoms=8):
         step = np.array([rng.gauss(0, 1) for _ in range(3)])
         style = rng.random()
         if style < 0.15 and a >= 2:      # near-collinear / near-planar continuation
-            step = (xyz[0, a] - xyz[0, a - 1]) + np.array([rng.gauss(0, 0.02) for _ in range(3)])
+            # deviations from a straight continuation of about 10, 2, 0.5 and 0.1 degrees (alkyne / nitrile-like units)
+            step = (xyz[0, a] - xyz[0, a - 1]) + np.array([rng.gauss(0, 1) for _ in range(3)]) * rng.choice([0.02, 0.004, 0.001, 0.0003])
         p = p + step / np.linalg.norm(step) * rng.uniform(0.1, 0.2)
     if box is not None:     # split the molecule across faces: shift atoms by random lattice vectors
         for a in range(n_atoms):
@@ -118,8 +119,10 @@ def run(ctx):
         kind = "none" if mode == "none" else ("ortho" if orth else "tri")
         res = {}
         for opt in (True, False):
-            res[("a", opt)] = md.compute_angles(t, trip, periodic=True, opt=opt)
-            res[("d", opt)] = md.compute_dihedrals(t, quad, periodic=True, opt=opt)
+            # the flag as callers produce it: a Python bool, a numpy bool (the result of an array test) or an integer
+            flag = [True, np.True_, 1][(k + int(opt)) % 3]
+            res[("a", opt)] = md.compute_angles(t, trip, periodic=flag, opt=opt)
+            res[("d", opt)] = md.compute_dihedrals(t, quad, periodic=flag, opt=opt)
         rev_a = md.compute_angles(t, trip[:, ::-1], periodic=True)
         rev_d = md.compute_dihedrals(t, quad[:, ::-1], periodic=True)
         mir_d = None
@@ -161,6 +164,9 @@ def run(ctx):
             want = float(np.arctan2(p1, p2))
             delta = 2.0 ** -22 * max(1.0, float(np.abs(P).max()), 0.0 if box is None else float(np.abs(box).max()))
             n1, n2, n3 = np.linalg.norm(b1), np.linalg.norm(b2), np.linalg.norm(b3)
+            if box is None and float(np.abs(P).max()) < 4096:
+                # grid coordinates without a cell: the float32 bond vectors are exact differences; only the products round
+                delta = 2.0 ** -22 * max(n1, n2, n3)
             # the dihedral is the angle between the plane normals c1, c2: a perturbation delta of the bond vectors turns them by at most this
             sens = delta * ((n2 + n3) / max(np.linalg.norm(c1), 1e-30) + (n1 + n2) / max(np.linalg.norm(c2), 1e-30))
             ill = np.hypot(p1, p2) < 2e-3 * (n1 * (b2 @ b2) * n3) or sens > 1e-4
